@@ -1,40 +1,44 @@
 /*UNIT
-{"props": ["C17", "C18"], "src": ["lib/hashtable.c"], "mode": "plain", "kind": "bounded",
- "bound": "8 buckets; key hashing to bucket 5; probed bucket holds <= 3 nodes (distinct keys of length 1..2, arbitrary bytes), <= 2 iterators parked per node, notifiers: none, or 2 global + 1 per key; other buckets arbitrary (never accessed)",
- "unwind": 6, "unwindset": ["harness.0:9"], "spec": ["hashtable.spec"], "tags": ["split"], "cbmc_flags": ["--no-malloc-may-fail"], "functions": ["hashtable_get", "hashtable_count_get", "hashtable_lookup", "qb_hash_string", "hash_fnv"],
+{"props": ["C17", "C18"], "src": ["lib/hashtable.c"], "spec": ["hashtable.spec"], "tags": ["split"], "mode": "plain", "kind": "bounded",
+ "bound": "8 buckets; key hashing to bucket 5; that bucket holds <= 3 nodes (distinct keys of length 1..2, arbitrary bytes; every equality pattern between the probed key and the node keys enumerated), <= 2 iterators parked per node, notifiers: none, or 2 global + 1 per key; other buckets arbitrary (never accessed)",
+ "unwind": 12, "cbmc_flags": ["--no-malloc-may-fail"],
+ "functions": ["hashtable_get", "hashtable_count_get", "hashtable_lookup", "qb_hash_string", "hash_fnv"],
  "restrict_fp": ["hashtable_notify.function_pointer_call.1/verif_notify_cb", "hashtable_notify.function_pointer_call.2/verif_notify_cb",
                  "hashtable_notify.function_pointer_call.3/verif_notify_cb"],
- "stubs": ["map notifier callback (records event, key, old and new value per notifier)", "malloc/calloc (may fail)"],
+ "stubs": ["map notifier callback (records event, key, old and new value per notifier)", "calloc/malloc (scripted: succeed or fail per enumerated case)",
+           "strcmp (answers from the declared key order of the enumerated case, asserted to agree with the key contents)"],
  "expect_classes": ["assertion"], "timeout": 300,
- "variants": [{"vname": "live", "defines": ["-DVERIF_STATE_EXTRA(p,i)=((p)==1)"]},
-              {"vname": "removed", "defines": ["-DV_REMOVED", "-DHT_SHAPE_FROM=2"]}]}
+ "variants": [{"vname": "live", "defines": ["-DVERIF_STATE_EXTRA(p,i)=((p)==1)", "-DM_PRESENT=1"]},
+              {"vname": "removed", "defines": ["-DV_REMOVED", "-DM_PRESENT=0"]}]}
 */
 /* hashtable_get(k) on every well-formed bounded state and every key: returns the value of the latest put
- * of k if k is present, nothing otherwise; changes nothing; calls no notifier.
+ * of k if k is present, nothing otherwise; changes nothing; calls no notifier; count_get reports the number
+ * of keys present.
  *  live   : all nodes present, 0..2 iterators parked on each     (C17, C18)
  *  removed: k was removed while an iterator is parked on its node: get must report nothing (defect #15) */
 #include "ht_common.h"
 
-static void verif_case(unsigned nodes, unsigned gnot, unsigned nnot)
+static void verif_case(unsigned nodes, unsigned gnot, unsigned nnot, int match, int m_iters)
 {
-	verif_alloc_never_fails = 1;
+	verif_alloc_fail = 0;
+	verif_keys_reset();
 	char *k = verif_key_new();
+	verif_key_register(k, HT_PROBE_RANK);
 	uint32_t b = ht_probe_bucket(k);
-	struct hash_table *t = ht_build(b, nodes, gnot, nnot);
-	int gi = ht_ghost_find(k);
 #ifdef V_REMOVED
-	ASSUME(gi >= 0 && HG[gi].present == 0);
+	if (match < 0) {
+		return;
+	}
+	m_iters = m_iters + 1;   /* a removed key's node only exists while an iterator is parked on it */
 #endif
+	struct hash_table *t = ht_build(b, nodes, gnot, nnot, match, M_PRESENT, m_iters);
+	int gi = match;
 
 	void *r = hashtable_get(&t->map, k);
 
 	if (gi >= 0 && HG[gi].present) {
-#ifndef V_REMOVED
 		COVER(HG_n == 3 && gi == 2);
-#endif
-#ifndef V_REMOVED
-		COVER(HG[gi].iters == 2);
-#endif
+		COVER(HG[gi].iters == 1);
 		POST(r == HG[gi].value, "get returns the value of the latest put for that key");
 	} else {
 #ifdef V_REMOVED
@@ -52,11 +56,6 @@ static void verif_case(unsigned nodes, unsigned gnot, unsigned nnot)
 
 void harness(void)
 {
-	VERIF_ND(uint8_t, nd_shape);
-	unsigned s;
-	for (s = HT_SHAPE_FROM; s < HT_SHAPE_TO; s++) {
-		if (nd_shape == s) {
-			verif_case(HT_SHAPE_NODES(s), HT_SHAPE_GNOT(s), HT_SHAPE_NNOT(s));
-		}
-	}
+	VERIF_ND(uint8_t, nd_case);
+	HT_ENUM_CASES(nd_case, verif_case);
 }
